@@ -410,14 +410,14 @@ def unit_enumerated(ctx, kinds, reps, computes=(False, True)):
 def units(tier):
     q = tier == 'quick'
     us = []
-    us.append({'name': 'enum-cheap', 'fn': 'unit_enumerated', 'kwargs': {'kinds': CHEAP_KINDS, 'reps': 3 if q else 30}})
+    us.append({'name': 'enum-cheap', 'fn': 'unit_enumerated', 'kwargs': {'kinds': CHEAP_KINDS, 'reps': 3 if q else 100}})
     for k in KINDS:
         if k not in CHEAP_KINDS:
             us.append({'name': 'enum-' + k, 'fn': 'unit_enumerated',
                        'kwargs': {'kinds': [k], 'reps': 1 if q else 4, 'computes': (True,) if q else (False, True)}})
     for k in KINDS:
         cheap = k in CHEAP_KINDS
-        n = (400 if cheap else 40) if q else (6000 if cheap else 500)
+        n = (400 if cheap else 120) if q else (20000 if cheap else 3000)
         us.append({'name': 'gen-' + k, 'fn': 'unit_generated', 'kwargs': {'kind': k, 'n': n}})
     return us
 
